@@ -14,6 +14,7 @@ parts here under an explicit decidable exclusion.
 -/
 import CaddyModel.C06.GlobLemmas
 import CaddyModel.C06.Witness
+import CaddyModel.Gen.Consts
 
 namespace CaddyModel.C06
 
@@ -427,5 +428,11 @@ example : pathCase [cStar :: [115, 101, 99, 114, 101, 116] ++ [cStar]] [47, 97, 
 example : globMatch [47, 97, 47, 42, 47, 91, 99, 45, 101, 93, 63] [47, 97, 47, 120, 121, 122, 47, 100, 113] = .yes ∧ globMatch [47, 97, 47, 42, 47, 91, 99, 45] [47, 97, 47, 120, 121, 122, 47, 100, 113] = .bad := by decide
 example : Sorted (sortHosts ([[69, 120, 97, 109, 112, 108, 101, 46, 99, 111, 109], [98, 46, 116, 101, 115, 116], [42, 46, 99, 46, 116, 101, 115, 116]].map lowerExact)) := sortHosts_sorted _
 example : isRooted [47, 120, 47, 46, 46, 47, 65, 68, 77, 73, 78, 47, 112, 97, 110, 101, 108] = true := by decide
+
+/-- **regenerated tie.** The large-list threshold the driver instantiates (`Driver.largeThreshold = 100`)
+    is the constant `tools/extract` reads out of `MatchHost.large` on every run. (The host theorems above
+    hold for EVERY threshold, so a changed constant cannot break the property — it would only make the
+    executable model disagree with the code, and this statement says why.) -/
+theorem large_threshold_matches_source : Gen.matchHostLargeThreshold = some 100 := by decide
 
 end CaddyModel.C06
